@@ -93,6 +93,7 @@ def _check_main(run, P):
     run.do(_raise, run, P)
     run.do(_cycle, run, P)
     run.do(_edges_kept, run, P)
+    run.do(_field_relations, run, P)
     run.do(_messages, run, P)
     flag(run, P, "C10.flag")
     run.do(_switch, run, P)
@@ -462,6 +463,18 @@ def _edges_kept(run, P):
                 and any(dotted(t) == kw[0].id for t in s_.targets)]
     elif passed:
         defs = [ast.Assign(targets=[], value=kw[0])]
+    def popped(v_):
+        return isinstance(v_, ast.Call) and dotted(v_.func) in ("kwargs.pop", "kwargs.get") \
+            and bool(v_.args) and string_value(v_.args[0]) == "depends_on"
+    if len(defs) == 2 and isinstance(kw[0], ast.Name) and popped(defs[0].value) \
+            and isinstance(defs[1].value, ast.Call) and dotted(defs[1].value.func) in ("frozenset", "set", "tuple") \
+            and len(defs[1].value.args) == 1 and dotted(defs[1].value.args[0]) == kw[0].id \
+            and defs[0].lineno < defs[1].lineno:
+        # taken out of the keywords, looked at (a better message for a lone string, say), then frozen
+        defs = [ast.Assign(targets=[], value=ast.Call(func=defs[1].value.func, args=[defs[0].value],
+                                                      keywords=[]), lineno=defs[1].lineno,
+                           col_offset=defs[1].col_offset, end_lineno=defs[1].end_lineno,
+                           end_col_offset=defs[1].end_col_offset)]
     ok = len(defs) == 1
     shape = norm(defs[0].value, 80) if defs else "?"
     if ok:
@@ -475,6 +488,33 @@ def _edges_kept(run, P):
            why="an edge that is normalised away at construction (a statement's "
                "dependency on itself, say) is invisible to the cycle check, and the "
                "ill-formed method is accepted")
+
+
+def _field_relations(run, P, rule="C10.cycle"):
+    """StatementBase.__init__ runs for every copy(), and the passes update one field per copy
+    (a fresh id first, the remapped dependencies next): a test that relates two fields there
+    meets combinations that exist only between two copies."""
+    from .util import path_conditions
+    f = P.func("dagrt.language.StatementBase.__init__")
+    n = 0
+    for r in ast.walk(f.node):
+        if not isinstance(r, ast.Raise):
+            continue
+        n += 1
+        names = set()
+        for t, _ in path_conditions(f.node, r):
+            try:
+                names |= {x.id for x in ast.walk(ast.parse(t, mode="eval")) if isinstance(x, ast.Name)}
+            except SyntaxError:
+                pass
+        both = {"id", "depends_on"} <= names
+        run.ob(rule, f, r, not both,
+               construct="StatementBase.__init__ raises on the form of one field, never on a relation "
+                         "between id and depends_on",
+               why="fusion gives a statement its new id in one copy and its new dependencies in the "
+                   "next: in between it can look self-dependent, and a valid fusion is refused")
+    run.ob(rule, f, f.node, True,
+           construct=f"StatementBase.__init__: {n} raise statement(s) examined", why="scan summary")
 
 
 def _cycle(run, P):
